@@ -98,6 +98,12 @@ CHECKS = {
         "Trusted: path lengths of DESIGN.md appendix A (refmodel::isa).",
         "DESIGN.md §3 C15",
     ),
+    "C17": (
+        "headless driver of the real Tui in a child process (hook H5) + line-editor model, documented command grammar (three-valued) and shadow Machine driven by the library calls",
+        "All key scripts up to length 3 over a 24-key alphabet, seeded random scripts up to 200 keys (multi-byte/wide characters, editing keys, chords, documented / must-reject / hostile command lines, load of fixtures) at random terminal sizes with resizes, and every terminal size 1x1..250x100; after every key: no panic in event handling or drawing, cursor inside the text, editor state, history, notification, quit flag, UI flags and the complete machine dump compared with the models.",
+        "Trusted: harness/src/refmodel/cmd.rs (documented command grammar), the editor model in mon/c17.rs, hook H5 (driver bypasses the crossterm backend; auto-run = 10 cycles per frame).",
+        "DESIGN.md §3 C17",
+    ),
     "C16": (
         "round-trip monitor: parse -> Display -> parse, AST equality",
         "Seeded programs from the grammar generator (all forms/values, Unicode comments, long data lines, 40 labels, header comments) are parsed, rendered and parsed again; the ASTs must be equal line by line.",
@@ -106,7 +112,7 @@ CHECKS = {
     ),
 }
 
-NOT_YET = {"C17": "monitor under construction in this round: the headless TUI driver hook (H5) is being added; runtime monitoring applies (DESIGN.md §3 C17)"}
+NOT_YET = {}
 
 
 def main():
